@@ -495,3 +495,196 @@ def subset_connectivity(N, E, extra, model, empty=False):
         mc = None  # outside the precondition of this contract (nothing kept / something kept)
     cases = [(t, keep, tuple(extra)) for t in _subset_tables(N, E) for keep in itertools.product((False, True), repeat=N) if any(keep) != empty]
     _run('SubsetTopology.connectivity', _chk_subset, cases, mc)
+
+
+# ------------------------------------------------------------- bounded stand-ins: exhaustive native table checks --
+
+def _ref_family():
+    from nutils import element
+    line, tri, tet = element.LineReference(), element.TriangleReference(), element.TetrahedronReference()
+    return [('line', line), ('square', line**2), ('cube', line**3), ('triangle', tri), ('tetrahedron', tet), ('triangle x line', tri * line), ('line x triangle', line * tri)]
+
+
+def _key(points):
+    return frozenset(tuple(round(float(x), 9) for x in p) for p in numpy.asarray(points, dtype=float))
+
+
+def reference_tables():
+    """Reference.connectivity / edgechildren against the GEOMETRY of the children: the face (child, edge) is the set of its
+    vertex coordinates in the parent's coordinates; exhaustive over every (child, edge) of every reference in the family."""
+    import json
+    cases, failures = 0, []
+    for name, ref in _ref_family():
+        try:
+            _ = ref.connectivity, ref.edgechildren
+        except Exception as ex:  # the real code raised where tables are expected
+            cases += 1
+            for cl in ('connectivity-is-the-face-adjacency', 'edgechildren-are-the-children-of-the-edge'):
+                failures.append(dict(clause=cl, ref=name, raised='%s: %s' % (type(ex).__name__, ex)))
+            continue
+        faces = {}
+        for i, (ctrans, cref) in enumerate(ref.children):
+            for e, (etrans, eref) in enumerate(cref.edges):
+                faces[i, e] = _key(ctrans.apply(etrans.apply(eref.vertices)))
+        conn = [list(map(int, c)) for c in ref.connectivity]
+        listed = {}
+        for iedge, (etrans, eref) in enumerate(ref.edges):
+            ech = [tuple(map(int, x)) for x in ref.edgechildren[iedge]]
+            if len(ech) != eref.nchildren:
+                failures.append(dict(clause='edgechildren-are-the-children-of-the-edge', ref=name, edge=iedge, got=len(ech), expected=eref.nchildren))
+            for k, ((ctrans, cref), (ichild, ichildedge)) in enumerate(zip(eref.children, ech)):
+                cases += 1
+                listed.setdefault((ichild, ichildedge), []).append((iedge, k))
+                if faces.get((ichild, ichildedge)) != _key(etrans.apply(ctrans.apply(cref.vertices))):
+                    failures.append(dict(clause='edgechildren-are-the-children-of-the-edge', ref=name, edge=iedge, edgechild=k, entry=[ichild, ichildedge]))
+        for (i, e), f in faces.items():
+            cases += 1
+            partners = [(j, g) for (j, g), h in faces.items() if h == f and (j, g) != (i, e)]
+            want = partners[0][0] if len(partners) == 1 else -1
+            if len(partners) > 1:
+                failures.append(dict(clause='every-child-face-exactly-once', ref=name, child=i, edge=e, partners=partners))
+            if conn[i][e] != want:
+                failures.append(dict(clause='connectivity-is-the-face-adjacency', ref=name, child=i, edge=e, got=conn[i][e], expected=want))
+            if conn[i][e] >= 0 and i not in conn[conn[i][e]]:
+                failures.append(dict(clause='connectivity-symmetric', ref=name, child=i, edge=e, neighbour=conn[i][e]))
+            nlisted = len(listed.get((i, e), []))
+            if (want == -1 and nlisted != 1) or (want != -1 and nlisted != 0):
+                failures.append(dict(clause='every-child-face-exactly-once', ref=name, child=i, edge=e, interior_partner=want, times_listed_in_edgechildren=nlisted))
+    print('BOUNDED-RESULT ' + json.dumps(dict(cases=cases, failures=failures[:10])))
+
+
+def _base_family(two_per_period=False):
+    """small base topologies with an injective (mod period) geometry: (name, topo, geom, periods).
+    two_per_period: ONLY the structured meshes with exactly two elements along a periodic direction (two elements that share two
+    faces) -- the family of the PARKED stand-ins (candidate defects); the regular family excludes them."""
+    from nutils import mesh
+    out = []
+    if two_per_period:
+        for shape, periodic in (([2], (0,)), ([2, 3], (0,)), ([1, 2], (1,)), ([3, 2], (0, 1)), ([2, 2, 2], (2,))):
+            topo, geom = mesh.rectilinear(shape, periodic=periodic)
+            out.append(('rectilinear%r periodic%r' % (shape, periodic), topo, geom, [shape[d] if d in periodic else 0 for d in range(len(shape))]))
+        return out
+    for shape, periodic in (([1], ()), ([3], ()), ([3], (0,)), ([4], (0,)), ([2, 2], ()), ([3, 2], (0,)), ([3, 1], (0,)), ([2, 3], (1,)), ([2, 1, 2], ()), ([2, 3, 1], (1,))):
+        topo, geom = mesh.rectilinear(shape, periodic=periodic)
+        out.append(('rectilinear%r periodic%r' % (shape, periodic), topo, geom, [shape[d] if d in periodic else 0 for d in range(len(shape))]))
+    for n in (1, 2):
+        topo, geom = mesh.unitsquare(n, 'triangle')
+        out.append(('unitsquare(%d, triangle)' % n, topo, geom, [0, 0]))
+    topo, geom = mesh.unitsquare(2, 'mixed')
+    out.append(('unitsquare(2, mixed)', topo, geom, [0, 0]))
+    return out
+
+
+def _face_keys(topo, geom, periods):
+    """per element, per edge: the set of vertex coordinates of that face (mod the periods)"""
+    from nutils import transform
+    keys = []
+    smp = topo.sample('vertex', 0) if False else None
+    for ielem, ref in enumerate(topo.references):
+        row = []
+        for etrans, eref in ref.edges:
+            if not eref:
+                row.append(None)
+                continue
+            pts = etrans.apply(eref.vertices)
+            x = _eval_at(topo, geom, ielem, pts)
+            x = numpy.concatenate([x, x.mean(0)[None]])  # the centroid too: with two elements per period the vertex sets alone coincide mod the period
+            for d, p in enumerate(periods):
+                if p:
+                    x[:, d] = numpy.mod(numpy.round(x[:, d], 9), p)
+            row.append((_key(x[:-1]), tuple(numpy.round(x[-1], 9))))
+        keys.append(row)
+    return keys
+
+
+def _eval_at(topo, geom, ielem, pts):
+    from nutils import sample as _sample, points as _points, types as _types
+    from nutils.pointsseq import PointsSequence
+    from nutils.sample import Sample
+    sub = topo[numpy.array([ielem])]
+    ps = PointsSequence.from_iter([_points.CoordsPoints(_types.arraydata(numpy.asarray(pts, dtype=float)))], topo.ndims)
+    smp = Sample.new(topo.space, (sub.transforms, sub.opposites), ps)
+    return numpy.array(smp.eval(geom), dtype=float)
+
+
+def _adjacency_failures(name, topo, geom, periods, clause_prefix, failures):
+    """connectivity of `topo` against the geometry: [ielem][iedge] is THE other element with the same face, else -1"""
+    keys = _face_keys(topo, geom, periods)
+    conn = [list(map(int, c)) for c in topo.connectivity]
+    owners = {}
+    for i, row in enumerate(keys):
+        for e, k in enumerate(row):
+            if k is not None:
+                owners.setdefault(k, []).append((i, e))
+    cases = 0
+    for i, row in enumerate(keys):
+        for e, k in enumerate(row):
+            if k is None:
+                continue
+            cases += 1
+            others = [j for j, g in owners[k] if (j, g) != (i, e)]
+            want = others[0] if len(others) == 1 else -1
+            if len(others) > 1:
+                failures.append(dict(clause=clause_prefix + 'every-face-between-at-most-two-elements', topo=name, element=i, edge=e, others=others))
+            if conn[i][e] != want:
+                failures.append(dict(clause=clause_prefix + 'connectivity-is-the-face-adjacency', topo=name, element=i, edge=e, got=conn[i][e], expected=want))
+            if conn[i][e] >= 0 and i not in conn[conn[i][e]]:
+                failures.append(dict(clause=clause_prefix + 'connectivity-symmetric', topo=name, element=i, edge=e, neighbour=conn[i][e]))
+    return cases
+
+
+def refined_connectivity(two_per_period=False):
+    """RefinedTopology.connectivity (the generic class, also over structured bases) against the geometry of the refined elements"""
+    import json
+    from nutils import topology
+    cases, failures = 0, []
+    for name, topo, geom, periods in _base_family(two_per_period):
+        for depth in (1, 2):
+            r = topo
+            for _ in range(depth):
+                r = topology.RefinedTopology(r)
+            if len(r) > 300:
+                continue
+            try:
+                cases += _adjacency_failures('%s refined %dx' % (name, depth), r, geom, [p for p in periods], '', failures)
+            except Exception as e:
+                failures.append(dict(clause='connectivity-is-the-face-adjacency', topo=name, raised='%s: %s' % (type(e).__name__, e)))
+    print('BOUNDED-RESULT ' + json.dumps(dict(cases=cases, failures=failures[:10])))
+
+
+def subset_boundary_interfaces(two_per_period=False):
+    """SubsetTopology over every non-empty subset of small bases: connectivity is the face adjacency among the kept elements; the
+    boundary lists exactly the exposed faces (no kept neighbour), the interfaces exactly the faces between two kept elements, once."""
+    import json
+    from nutils import topology
+    cases, failures = 0, []
+    for name, topo, geom, periods in _base_family(two_per_period):
+        N = len(topo)
+        if N > 6:
+            continue
+        keys = _face_keys(topo, geom, periods)
+        for mask in itertools.product((False, True), repeat=N):
+            if not any(mask):
+                continue  # the empty subset is the parked contract (candidate defect)
+            sub = topology.SubsetTopology(topo, [ref if keep else ref.empty for ref, keep in zip(topo.references, mask)])
+            tag = '%s kept %s' % (name, ''.join('1' if k else '0' for k in mask))
+            try:
+                cases += _adjacency_failures(tag, sub, geom, periods, '', failures)
+                kept = [i for i in range(N) if mask[i]]
+                owners = {}
+                for i in kept:
+                    for e, k in enumerate(keys[i]):
+                        owners.setdefault(k, []).append(i)
+                exposed = sorted(kept.index(i) for k, own in owners.items() if len(own) == 1 for i in own)
+                shared = sorted(tuple(sorted(kept.index(i) for i in own)) for k, own in owners.items() if len(own) == 2)
+                # a face of a periodic one-element axis is shared by the element with itself: listed twice by the same owner
+                bnd = sorted(sub.transforms.index_with_tail(t)[0] for t in sub.boundary.transforms)
+                ifc = sorted(tuple(sorted((sub.transforms.index_with_tail(t)[0], sub.transforms.index_with_tail(o)[0]))) for t, o in zip(sub.interfaces.transforms, sub.interfaces.opposites))
+                cases += 2
+                if bnd != exposed:
+                    failures.append(dict(clause='boundary-is-the-exposed-faces', topo=tag, got=bnd, expected=exposed))
+                if ifc != shared:
+                    failures.append(dict(clause='interfaces-list-every-interior-face-once', topo=tag, got=ifc, expected=shared))
+            except Exception as e:
+                failures.append(dict(clause='connectivity-is-the-face-adjacency', topo=tag, raised='%s: %s' % (type(e).__name__, e)))
+    print('BOUNDED-RESULT ' + json.dumps(dict(cases=cases, failures=failures[:10])))
